@@ -69,8 +69,10 @@ def runKeyword (env : Env) (impl : FmtImpl) (cfg : Cfg) (rec : Rec) (inst schema
 def falseErr (inst : Json) : Err :=
   .mk ⟨"false", [inst]⟩ (some ⟨none, .null, inst, .bool false⟩) [] [] [] none
 
-/-- the scope `id_of(schema)` contributes: `none` = falsy (nothing pushed) -/
+/-- the scope `id_of(schema)` contributes: `none` = falsy (nothing pushed);
+    `""` whenever the schema has a `$ref` key (whatever its value) -/
 def scopeOf (cfg : Cfg) (kvs : List (Str × Json)) : Except String (Option Str) :=
+  if Json.hasKey (skey "$ref") kvs then .ok none else
   match Json.lookup cfg.idKey kvs with
   | none => .ok none
   | some (.str s) => .ok (if s.isEmpty then none else some s)
